@@ -28,9 +28,16 @@ func Match(p Pattern, input string, match func(label logql.Label, value string))
 				value string
 			)
 			if i+1 < len(parts) {
-				// Capture everything until next part.
-				next := parts[i+1]
-				value, _, ok = strings.Cut(input, next.Value)
+				// Capture everything until next capture: parser may give
+				// the literal between captures in several parts.
+				delim := parts[i+1].Value
+				for _, next := range parts[i+2:] {
+					if next.Type != Literal {
+						break
+					}
+					delim += next.Value
+				}
+				value, _, ok = strings.Cut(input, delim)
 			} else {
 				// Capture remaining string.
 				value = input
